@@ -4,6 +4,7 @@ go 1.23.0
 
 require (
 	github.com/jcmoraisjr/haproxy-ingress v0.0.0
+	github.com/kylelemons/godebug v1.1.0
 	k8s.io/api v0.32.3
 	k8s.io/apimachinery v0.32.3
 	pgregory.net/rapid v1.3.0
@@ -41,7 +42,6 @@ require (
 	github.com/josharian/intern v1.0.0 // indirect
 	github.com/json-iterator/go v1.1.12 // indirect
 	github.com/klauspost/compress v1.18.0 // indirect
-	github.com/kylelemons/godebug v1.1.0 // indirect
 	github.com/mailru/easyjson v0.9.0 // indirect
 	github.com/mitchellh/copystructure v1.2.0 // indirect
 	github.com/mitchellh/mapstructure v1.5.0 // indirect
